@@ -221,7 +221,8 @@ WIDE_ABSTRACT = ["loc", "glo", "rec", "fmt", "clos", "label", "par", "str"]
 WIDE_TEXT = ["domlex", "multi", "name", "bint"]
 # levels at which a kind is performed in the quick tier besides the level the seed picks (the optimiser removes the
 # 260-field record of `rec' altogether above -Q0, and the record format of `fmt' is a local's format only at -Q0)
-WIDE_FIXED_LEVEL = {"rec": ["Q0"], "fmt": ["Q0"], "multi": ["Q0"], "clos": ["Q2"]}
+WIDE_FIXED_LEVEL = {"rec": ["Q0"], "fmt": ["Q0"], "multi": ["Q0"], "clos": ["Q2"], "bint": ["Q2"]}
+WIDE_ONLY_FIXED = ("rec", "bint", "multi")     # bint: Integer literals are folded into BInt constants from -Q2 on only
 SECT_NAMES = ["syme", "foam", "fsyme", "pos", "postbl", "name", "kind", "file", "lazy", "type", "inline", "twins", "extend",
               "doc", "foreign", "fileid", "macros"]
 
@@ -570,10 +571,18 @@ def run(chk, tier):
         j = Job(b, wd, pid, text, None)
         j.wide = k
         jobs.append(j)
+    # the unit with the long Integer literal makes the unchanged compiler allocate until memory is exhausted (open finding):
+    # its commands run under an address-space limit, so that this takes seconds instead of minutes
+    wrapper = os.path.join(wd, "aldor-limited")
+    with open(wrapper, "w") as fh:
+        fh.write("#!/bin/sh\nulimit -v 3000000\nexec %s \"$@\"\n" % b["aldor"])
+    os.chmod(wrapper, 0o755)
     for j in jobs:
         if j.wide is not None:
             for t in j.trees.values():
                 t.TIMEOUT = 150          # type inference of the 260-field record alone takes 10 s and more
+                if j.wide == "bint":
+                    t.b = dict(b, aldor=wrapper)
     order = list(shapes)
     rnd.shuffle(order)
     # A constant of the library that the client reads through an ARCHIVE member crashes the client (open finding): the
@@ -618,9 +627,10 @@ def run(chk, tier):
         if j.wide is not None:
             # through .ao and through an archive member: FOAM text and interpretation (thorough: C text and executable too)
             k = (WIDE_ABSTRACT + WIDE_TEXT).index(j.wide)
-            lv = LEVELS if not quick else sorted(set(WIDE_FIXED_LEVEL.get(j.wide, []) + [LEVELS[(chk.seed + k) % 3]]))
-            if j.wide == "rec":
-                lv = ["Q0"] if quick else ["Q0", "Q2"]        # type inference needs 10 s and more for the 260-field record
+            lv = LEVELS if not quick else sorted(set(WIDE_FIXED_LEVEL.get(j.wide, []) +
+                                                     ([] if j.wide in WIDE_ONLY_FIXED else [LEVELS[(chk.seed + k) % 3]])))
+            if j.wide == "rec" and not quick:
+                lv = ["Q0", "Q2"]        # type inference needs 10 s and more for the 260-field record
             fin = ("fm", "run") if quick else ("fm", "run", "c", "exe")
             chosen = {(p["level"], tuple(p["chain"]), p["final"]): p for p in indirect
                       if p["level"] in lv and tuple(p["chain"]) in wide_chains and p["final"] in fin
